@@ -86,6 +86,9 @@ def table_case(draw, adaptive=None, allow_f32=True, max_n=120, kmin=-3):
     else:
         big = 300 if ns == "numpy" else 40
         case["n_steps"] = draw(st.one_of(st.integers(1, 12), st.integers(1, 30), st.integers(1, big)))
+    if case["route"] == "base" and draw(st.integers(0, 3)) == 0:
+        # the sampler object has already completed an unrelated run (different schedule / target) before the run under test
+        case["reuse"] = draw(st.sampled_from(["ramp", "scalar", "fixed"]))
     nf = draw(st.sampled_from(["none", "none", "same", "smaller", "larger"]))
     if nf == "same":
         case["n_final"] = n
@@ -112,6 +115,9 @@ def step_floor(case):
     return tol / 2
 
 
+WRAPPER_ACTIVE = [True]
+
+
 def build(case, likelihood_wrapper=None, rng=None, flow=None):
     """Return (aspire_or_None, sampler_factory-bound call) pieces for a table run."""
     from pbt_flows import TableFlow
@@ -131,7 +137,10 @@ def build(case, likelihood_wrapper=None, rng=None, flow=None):
         return xp.zeros(samples.x.shape[0], dtype=samples.x.dtype)
 
     if likelihood_wrapper is not None:
-        log_likelihood = likelihood_wrapper(log_likelihood)
+        raw, wrapped = log_likelihood, likelihood_wrapper(log_likelihood)
+
+        def log_likelihood(samples):  # the wrapper observes only the run under test, not a preliminary run on the same sampler
+            return wrapped(samples) if WRAPPER_ACTIVE[0] else raw(samples)
     return xp, dt, flow, log_likelihood, log_prior
 
 
@@ -223,6 +232,25 @@ def run(case, ctx=None, likelihood_wrapper=None, extra_kwargs=None, flow=None, w
                 kw["beta_tolerance"] = case["beta_tolerance"]
             if case.get("store_history") is False:
                 kw["store_sample_history"] = False
+            res.reused = False
+            if case.get("reuse") and "resume_from" not in (extra_kwargs or {}):
+                prev = {"ramp": {"adaptive": True, "target_efficiency": (0.2, 0.9)},
+                        "scalar": {"adaptive": True, "target_efficiency": 0.6},
+                        "fixed": {"adaptive": False, "n_steps": 3}}[case["reuse"]]
+                prev["sampler_kwargs"] = kw["sampler_kwargs"]
+                WRAPPER_ACTIVE[0] = False
+                try:
+                    s.sample(case["n"], **prev)
+                    res.reused = True
+                except minipcn.StepBudgetExceeded:
+                    pass
+                except ValueError as e:
+                    if "NaN values" not in str(e):
+                        raise
+                finally:
+                    WRAPPER_ACTIVE[0] = True
+                minipcn.reset()
+                minipcn.step_budget = iteration_budget(case) + 1
             try:
                 res.samples = s.sample(case["n"], **kw)
             finally:
@@ -282,6 +310,8 @@ def ess_rtol(case):
 
 def run_failed(case, r, ctx, labels):
     """C06 owns 'the run raised / did not finish'. Other properties skip such runs (counted)."""
+    if getattr(r, "reused", False):
+        labels.append("reused-sampler")
     if r.error is not None:
         from .runner import aspire_frame
 
